@@ -687,6 +687,39 @@ def row_features(screen):
     return sorted(fs)
 
 
+def _readonly_queries(screen):
+    """a battery of read-only view operations on a screen; returns a predicate message if any of them changed the
+    screen's observation mask or observations (none of them is documented to modify its arguments)"""
+    from batchie.data import ScreenSubset
+    m0 = np.array(screen.observation_mask, copy=True)
+    o0 = np.array(screen.observations, copy=True)
+    with warnings.catch_warnings():
+        warnings.simplefilter("ignore")
+        try:
+            ob, un = screen.subset_observed(), screen.subset_unobserved()
+            plates = list(screen.plates)
+            parts = [x for x in (ob, un) if x is not None]
+            if ob is not None and plates:
+                ScreenSubset.concat([ob] + plates[:2])
+                ob.combine(plates[-1])
+            if un is not None and plates:
+                ScreenSubset.concat([un, plates[0]])
+            for x in parts:
+                x.invert()
+                x.to_screen()
+            if len(plates) >= 2:
+                ScreenSubset.concat(plates)
+                plates[0].combine(plates[1])
+        except Exception:      # noqa: BLE001 - a query that refuses is not a modification
+            pass
+    if not np.array_equal(m0, np.asarray(screen.observation_mask)):
+        return "noninterference-readonly-query: read-only view queries (subset_observed / concat / combine / invert / to_screen) changed the screen's observation mask: %d experiment(s) now count as observed" % int(
+            (np.asarray(screen.observation_mask) & ~m0).sum())
+    if not np.array_equal(o0, np.asarray(screen.observations), equal_nan=True):
+        return "noninterference-readonly-query: read-only view queries changed the screen's stored observations"
+    return None
+
+
 def run(desc):
     if desc.get("kind") == "cli_args":      # get_args() of this property's wrapper on generated command lines (harness/c18_args.py)
         import c18_args
@@ -706,6 +739,10 @@ def run(desc):
 
     if kind in ("rel", "cli"):
         sb = screenlib.build(concrete(sd, True))
+        # read-only view queries first (what scoring / plotting code does with a screen before the next training): they
+        # must leave the screen as it was - a query that flips the mask changes what "the observed experiments" are
+        ro = _readonly_queries(sa)
+        _readonly_queries(sb)
         ra, rb = wire_rows(sa), wire_rows(sb)
         ia, ib = train_result(model, sa, 1), train_result(model, sb, 1)
         iw = train_result(model, sa, 0)
@@ -714,9 +751,9 @@ def run(desc):
         if model == INT:
             wire.append(req(model, 1, ra, arity, repaired))
         impl = [ia, ib, iw, view_of(sa), [r[:4] + r[5:] for r in rb]]
-        pred = None
+        pred = ro
         # 1. non-interference: the two runs, bit for bit
-        if train_bits(model, ia) != train_bits(model, ib):
+        if pred is None and train_bits(model, ia) != train_bits(model, ib):
             pred = "noninterference-training-data: training arrays / lookup differ between the two screens"
         if pred is None and view_of(sa) != view_of(sb):
             pred = "noninterference-ids: ids or mask differ between the two screens"
